@@ -349,6 +349,8 @@ impl GraphEngine {
 
     // T203: HNSW Public API
     pub fn insert_vector(&self, id: InternalNodeId, vector: Vec<f32>) -> Result<()> {
+        // Catalog before pager, the order the commit path uses.
+        let mut catalog = self.index_catalog.lock().unwrap();
         #[cfg(nervusdb_verif)]
         crate::verif_hooks::lock("pager", "write", 0);
         let mut pager = self.pager.write().unwrap();
@@ -359,7 +361,20 @@ impl GraphEngine {
         let mut idx = self.vector_index.lock().unwrap();
         #[cfg(nervusdb_verif)]
         let _vt_idx = crate::verif_hooks::lock_acquired("vector_index", "lock");
-        idx.insert(&mut *pager, id, vector)
+        idx.insert(&mut *pager, id, vector)?;
+
+        // The stores' B-tree roots move when a root page splits. The catalog is what
+        // the next open reads them from, so keep it pointing at the current roots.
+        let roots = [
+            ("__sys_hnsw_vec", idx.vector_store().root()),
+            ("__sys_hnsw_graph", idx.graph_store().root()),
+        ];
+        for (name, root) in roots {
+            if catalog.get(name).map(|def| def.root) != Some(root) {
+                catalog.update_root(&mut pager, name, root)?;
+            }
+        }
+        Ok(())
     }
 
     pub fn search_vector(&self, query: &[f32], k: usize) -> Result<Vec<(InternalNodeId, f32)>> {
